@@ -272,7 +272,8 @@ void scaleCase(Ctx& ctx, int which, bool saved)
 	Map mm;
 	auto o = parse(sd, buf.get(), n, mm);
 	ctx.transition();
-	if (o.cls != 'R') { ctx.violation("C07/scale/valid-file-rejected", key, o.what); return; }
+	// this property lets the reader refuse any file with an ordinary error (that valid maps are accepted is demanded by C06)
+	if (o.cls != 'R') { if (o.cls == 'X') ctx.violation("C07/scale/non-std-exception", key, ""); ctx.count("scale/valid-file-refused"); ctx.count("scale/files"); return; }
 	std::string d = mapc::compare(mm, m, !saved);
 	if (!d.empty()) { ctx.violation("C07/scale/returned-map-differs-from-the-file", key, d); return; }
 	mm = Map();
